@@ -27,7 +27,7 @@ RULE = (
     "other compiles; non-trivial = pattern with >= 1 field spec; distinct = distinct (pattern text, node fingerprint)"
 )
 ASSUMPTIONS = ["sequence patterns applied to str-valued fields and field names that are properties/methods are not generated (don't-care)"]
-MUST_SEE = ["regex_on_hash_equal_values", 
+MUST_SEE = ["rules_given_as_iter", "rules_given_as_gen", "regex_on_hash_equal_values", 
     "tail_vs_too_short", "capture_on_seq_with_tail", "two_any_captures", "var_node_other_origin", "second_alternative_subclass",
     "matches", "mismatches", "reasked", "multi_questions", "regex_middle_only", "tail_capture", "empty_seq_vs_nonempty", "reasked_after_rejected",
 ]
@@ -220,7 +220,11 @@ def run_shard(ctx):
                                 exp = (rn, refs[rn][1])
                                 break
                         try:
-                            got = mm.match(node, rules) if rules is not None else mm.match(node)
+                            # the rule order may be given as any iterable (list, tuple, one-shot iterator, dict keys)
+                            spell = rng.choice(["list", "tuple", "iter", "gen", "keys"]) if rules is not None else None
+                            ctx.count(f"rules_given_as_{spell}")
+                            given = rules if spell in (None, "list") else tuple(rules) if spell == "tuple" else iter(rules) if spell == "iter" else (r_ for r_ in rules) if spell == "gen" else dict.fromkeys(rules).keys()
+                            got = mm.match(node, given) if rules is not None else mm.match(node)
                         except Exception as e:  # noqa: BLE001
                             ctx.violation("multi-raised", f"{type(e).__name__}: {e}", {"defs": defs, "rules": rules})
                             continue
@@ -261,9 +265,10 @@ def run_shard(ctx):
     import re as _re2
 
     rng = ctx.rng("hash-equal-values")
-    vals = [1, True, 1.0, 0, False, 0.0, -0.0, 10, "1", "True"]
+    vals = [1, True, 1.0, 0, False, 0.0, -0.0, 10, "1", "True", "lib\\data", "lib7/x.h", "x\\", "a\\\\b"]
     leaves = [U.cls[f"{P}Leaf"](v=v, s=str(i)) for i, v in enumerate(vals)]
-    regexes = ["1$", "True", "1\\.0$", "0$", "False$", "0\\.0", "-0", "1", "[01]$", "(True|False)$", ".*0$"]
+    # the text between the quotes is the regex as written: an escaped backslash stays an escaped backslash
+    regexes = ["1$", "True", "1\\.0$", "0$", "False$", "0\\.0", "-0", "1", "[01]$", "(True|False)$", ".*0$", "lib\\\\d", "lib\\d", "x\\\\$", "a\\\\\\\\b", "a\\\\b"]
     qs = [(rx, lf) for rx in regexes for lf in leaves]
     rng.shuffle(qs)
     for rx, lf in qs:
@@ -274,7 +279,7 @@ def run_shard(ctx):
         if m is None:
             ctx.violation("well-formed-rejected", f"pattern rejected: {msg[:200]}", {"pattern": text})
             continue
-        exp = _re2.match(rx.replace("\\\\", "\\"), str(lf.v)) is not None
+        exp = _re2.match(rx, str(lf.v)) is not None
         got = m.match(lf)[0]
         if got != exp:
             ctx.violation("verdict", f"match verdict {got}, the regex applied to str(value) says {exp}", {"pattern": text, "value": repr(lf.v), "how": "hash-equal values in one history"})
